@@ -14,8 +14,8 @@ as the one generated without them.
 History leg (keys C01:history:...): per work item ONE long-lived decoder object and ONE long-lived encoder object per
 class.  Every message of a base / burst chunk and every 8th of a sweep (same shape throughout; every 32nd of an all-FN
 sweep) is additionally parsed into the long-lived decoder (after whatever it parsed before) and
-must decode equal to the message just as on a fresh object; after every case of a base / burst chunk and every 32nd case
-of a sweep a "twin" (another valid message of different shape: rx v1 burst <-> NOPE.ind without burst, tx / rx v0 the
+must decode equal to the message just as on a fresh object; after every case of a base chunk, every 8th case of a burst-pattern
+chunk and every 32nd case of a sweep a "twin" (another valid message of different shape: rx v1 burst <-> NOPE.ind without burst, tx / rx v0 the
 other burst length) is encoded through the long-lived encoder with its fields reassigned - same octets as from a new
 object - and decoded by the long-lived decoder; the buffer an earlier gen_msg() returned must be unchanged after the next
 gen_msg() on the same or on another object (aliasing).  Auxiliary leg "tables": the soft-bit translation -127..127 <-> 254..0
@@ -180,13 +180,14 @@ def twin(c):
 
 
 SWEEP_TWIN_EVERY = 32
+BURST_EVERY = 8             # burst-pattern chunks keep one shape per burst length: every 8th case
 SWEEP_REUSE_EVERY = 8       # in sweeps (same shape throughout) every 8th case also goes through the long-lived object(s)
 
 
 def seq_chunk(chunk):
     """message sequence of a chunk: ("case", c) for every enumerated case, followed by ("twin", twin(c)) after every case
-    of a base / burst chunk and after every 32nd case of a sweep"""
-    every = SWEEP_TWIN_EVERY if chunk[0] == "sweep" else 1
+    of a base chunk, every 8th case of a burst-pattern chunk and every 32nd case of a sweep"""
+    every = SWEEP_TWIN_EVERY if chunk[0] == "sweep" else (BURST_EVERY if chunk[0] == "burst" else 1)
     allfn = chunk[0] == "sweep" and chunk[4] == "all"
     for i, c in enumerate(E.cases(chunk)):
         # every case of a base / burst chunk, every 8th of a sweep (same shape throughout), every 32nd of an all-FN sweep
@@ -411,7 +412,7 @@ def run(ctx):
                  "History leg (hist_* counters, not part of evaluations/distinct_nontrivial): per work item one long-lived decoder and "
                  "one long-lived encoder object per class; every message of a base/burst chunk, every 8th of a sweep (32nd of an all-FN "
                  "sweep) is also parsed into the long-lived decoder and "
-                 "compared field by field; after every case of a base/burst chunk and every 32nd case of a sweep a twin message of "
+                 "compared field by field; after every case of a base chunk, every 8th case of a burst-pattern chunk and every 32nd case of a sweep a twin message of "
                  "different shape (rx v1 burst <-> NOPE.ind, tx / rx v0 other burst length) is encoded through the long-lived encoder "
                  "(octets must equal a new object's) and decoded by the long-lived decoder; previously returned buffers must stay "
                  "unchanged (aliasing). Work items, not worker processes, own these objects, so results do not depend on scheduling.")
